@@ -96,16 +96,19 @@ string do_espnet(const vector<string> &a) {
     ref_reply = c06::g_sent[1];
     c06::g_sent.clear();
   }
-  EsTwin t[2];
+  EsTwin t[3];
   t[0].setup(a[1]);
   t[1].setup(a[1]);
+  t[2].setup(a[1]);
   c06::Trace tr;
   for (size_t k = 2; k < a.size(); k++) {
     bool self = !a[k].empty() && a[k][0] == '@';
     vector<uint8_t> d = vh::unhex(self ? a[k].substr(1) : a[k]);
     string o0 = t[0].deliver(c06::POISON[0], d, self, ref_ack, ref_reply);
     string o1 = t[1].deliver(c06::POISON[1], d, self, ref_ack, ref_reply);
-    tr.add(o0, o1);
+    string o2;
+    { c06::PrevMode pm; o2 = t[2].deliver(c06::POISON[2], d, self, ref_ack, ref_reply); }
+    tr.add3(o0, o1, o2);
   }
   return tr.result();
 }
